@@ -25,6 +25,10 @@ while i < len(args):
     i += 1
 man = json.loads((V / "MANIFEST.json").read_text())
 checks = [c for c in man["checks"] if not ids or c["property_id"] in ids]
+# coverage extensions (props/X*.py) are not properties of the manifest; run them with "extras" or by id
+for x in sorted((V / "props").glob("X*.py")):
+    if x.stem in ids or "extras" in ids:
+        checks.append({"property_id": x.stem, "quick_cmd": f"./check {x.stem} --tier quick", "thorough_cmd": f"./check {x.stem} --tier thorough"})
 
 
 def run(c):
